@@ -1151,6 +1151,63 @@ example :
       = (⟨.done, true⟩, [.upd, .pub, .upd, .pub]) := by
   decide
 
+
+/-! ## C20, `record_many` -/
+
+theorem runScript_evs (s : State) (evs : List Ev) (ops : List Op) :
+    runScript s (evs.map Op.ev ++ ops) = runScript (run s evs).1 ops := by
+  induction evs generalizing s with
+  | nil => rfl
+  | cons e es ih => simp only [List.map_cons, List.cons_append, runScript, stepOp, run_cons, ih]
+
+/-- **C20 (`record_many`).** `Histogram::record_many(v, n)` is `n` times `record(v)`: every later readout of the script
+writes exactly what it writes after `n` single records — so the exactly-once and conservation theorems (stated for
+`hrec` steps) cover `record_many` by construction. -/
+theorem c20_record_many_is_n_records (s : State) (k : Key) (v n : Nat) (ops : List Op) :
+    runScript s (Op.recordMany k v n :: ops) = runScript s ((List.replicate n (Ev.hrec k v)).map Op.ev ++ ops) := by
+  rw [runScript_evs]; rfl
+
+theorem cellRun_replicate_add (c n : Nat) (v : Nat) :
+    cellRun (fun _ => 1) c (List.replicate n (CellEv.add v)) = ((c + n) % two64, []) ∨ (n = 0 ∧
+      cellRun (fun _ => 1) c (List.replicate n (CellEv.add v)) = (c, [])) := by
+  induction n generalizing c with
+  | zero => right; exact ⟨rfl, rfl⟩
+  | succ n ih =>
+    left
+    simp only [List.replicate_succ, cellRun]
+    rcases ih ((c + 1) % two64) with h | ⟨hn, h⟩
+    · rw [h]; simp only [two64, Prod.mk.injEq, and_true]
+      omega
+    · subst hn; rw [h]
+
+/-- … and the `n` single `fetch_add(1)`s amount to one `fetch_add(n)` on the bucket of `v` (what an overriding
+`record_many` may do instead): the bucket cell afterwards holds `(cell + n) mod 2^64`, nothing is handed out. -/
+theorem c20_record_many_single_add (s : State) (k : Key) (v n i : Nat)
+    (hi : valueToIndex histGrouping histMaxPower v = some i) (hn : 0 < n) :
+    (run s (List.replicate n (Ev.hrec k v))).1.histOf k i = (s.histOf k i + n) % two64 ∧
+    countsH k i (run s (List.replicate n (Ev.hrec k v))).2 = [] := by
+  have hr := run_hist_cell s (List.replicate n (Ev.hrec k v)) k i
+  have hf : (List.replicate n (Ev.hrec k v)).filterMap (projH k i) = List.replicate n (CellEv.add v) := by
+    clear hr hn
+    induction n with
+    | zero => rfl
+    | succ n ih => simp [List.replicate_succ, projH, hi, ih]
+  rw [hf] at hr
+  rcases cellRun_replicate_add (s.histOf k i) n v with h | ⟨h0, _⟩
+  · rw [h] at hr; exact hr
+  · omega
+
+/-- Non-vacuity: `record_many(1000, 3)` then a readout reports bucket value 1007 three times; `absolute` and gauge
+increment / decrement act on one cell. -/
+example :
+    let h : Key := ⟨2, []⟩
+    let c : Key := ⟨1, []⟩
+    let r := runScript (State.init false)
+      [.ev (.regH h), .recordMany h 1000 3, .ev (.regC c), .ev (.inc c 4), .absolute c 9, .absolute c 2, .readout]
+    r.2.map (fun e => (e.counters, e.hists)) =
+      [([⟨1, [], 0, [.unsigned 9]⟩], [⟨2, [], 0, [.repeated 1007 3]⟩])] := by
+  decide +kernel
+
 /-- Non-vacuity of the sequential readout: a counter with labels, a described histogram; the second readout reports
 nothing for the counter (zero delta dropped) and an empty histogram. -/
 example :
@@ -1192,3 +1249,5 @@ end MetricsRs
 #print axioms MetricsRs.c20_unit_read_after_walk
 #print axioms MetricsRs.c20_described_before_registered
 #print axioms MetricsRs.c20_shutdown_publishes_rest
+#print axioms MetricsRs.c20_record_many_is_n_records
+#print axioms MetricsRs.c20_record_many_single_add
